@@ -190,35 +190,46 @@ def cases(rng, tier):
         k, full = finish_script(rs, rng.range(1, len(rs) + 1))
         add("life_outside", "eid_run %d %s" % (sh, " ".join(life_tokens(k, full))), readings=[full], shard=sh)
     # ---- several generator lifetimes (restart = new generator)
+    def chain(nl, mode, eng):
+        """nl lifetimes; returns (list of (k, full script)).  In the first nl-1 lifetimes of modes same/back the
+        script is non-decreasing and k = its length, so the last millisecond used is its last reading."""
+        t = E + 3000 + rng.below(10 ** 12)
+        lives, first = [], None
+        for li in range(nl):
+            m = mode if mode != "mixed" else rng.choice(["adv", "same", "back"])
+            kind = rng.choice(["mono", "repeat"] if (eng or m in ("same", "back")) else ["mono", "repeat", "walk", "backward"])
+            rs = script(rng, kind, t)
+            if first is not None:
+                rs = [first] + rs
+            if kind in ("mono", "repeat") and (m in ("same", "back") or rng.chance(1, 2)):
+                k, full = finish_script(rs, len(rs))
+                last_used = rs[-1]
+            else:
+                k, full = finish_script(rs, rng.range(1, len(rs) + 2))
+                last_used = max(full)
+            lives.append((k, full))
+            if m == "adv":
+                t = max(full) + 3000 + rng.range(1, 10 ** 6)   # later scripts dip at most 3000 below their base
+                first = None
+            elif m == "same":
+                t = last_used
+                first = last_used
+            else:
+                first = last_used - rng.choice([1, 1, 2, 50, rng.range(1, 10 ** 5)])
+                t = first
+        return lives
+
     for _ in range(120 * mult):
         sh = rng.choice(SHARDS)
-        nl = rng.choice([2, 2, 2, 3])
-        t = E + 3000 + rng.below(10 ** 12)
-        lives, reads = [], []
         mode = rng.choice(["adv", "adv", "same", "back", "mixed"])
-        for li in range(nl):
-            kind = rng.choice(["mono", "repeat", "walk", "backward"])
-            k, full = one_life(kind, t)
-            lives.append(life_tokens(k, full))
-            reads.append(full)
-            top = max(full)
-            m = mode if mode != "mixed" else rng.choice(["adv", "same", "back"])
-            if m == "adv":
-                t = top + 3000 + rng.range(1, 10 ** 6)    # every later script stays above (scripts dip at most 3000 below)
-            elif m == "same":
-                t = top - rng.range(0, 3)
-            else:
-                t = top - rng.range(1, 10 ** 5)
-        add("restart_" + mode, "eid_run %d %s" % (sh, " / ".join(" ".join(l) for l in lives)), readings=reads, shard=sh)
+        lives = chain(rng.choice([2, 2, 2, 3]), mode, False)
+        add("restart_" + mode, "eid_run %d %s" % (sh, " / ".join(" ".join(life_tokens(k, f)) for k, f in lives)),
+            readings=[f for _, f in lives], shard=sh)
     # ---- real ShardContext: two lifetimes through the real WAL
     for _ in range(40 * mult):
         sh = rng.choice([0, 0, 1, 3, 1023, 1024, 1500])
-        t = E + 3000 + rng.below(10 ** 12)
-        k1, f1 = one_life(rng.choice(["mono", "repeat", "walk"]), t)
-        top = max(f1)
         mode = rng.choice(["adv", "adv", "same", "back"])
-        t2 = top + 3000 + rng.range(1, 10 ** 6) if mode == "adv" else top - rng.range(0, 2) if mode == "same" else top - rng.range(1, 10 ** 5)
-        k2, f2 = one_life(rng.choice(["mono", "repeat", "walk"]), t2)
+        (k1, f1), (k2, f2) = chain(2, mode, True)
         add("ctx_restart_" + mode, "eid_life2 %d %s / %s" % (sh, " ".join(life_tokens(k1, f1)), " ".join(life_tokens(k2, f2))),
             readings=[f1, f2], shard=sh)
     # the epoch itself on shard 0: id 0 is written and regenerated on recovery
